@@ -152,6 +152,14 @@ def _run(ctx, pq):
     ctx.obligation("digit table: udigit_zeros / uspaces of Impl/Partition.v = unicodedata %s of the running interpreter (decimal digits come in runs of ten)"
                    % unicodedata.unidata_version, runs_ok and list(mz) == zeros and list(ms) == spaces,
                    "model zeros %r... python zeros %r...; model spaces %r python spaces %r" % (list(mz)[:5], zeros[:5], list(ms), spaces))
+    # the metadata block -> kind glue: harness/partlib.kind_of_meta (Python) vs Impl/PartMeta.kind_of_pmeta (the one the regenerated
+    # val_from_meta is proved against), on every kind of block fastparquet writes
+    metas = [meta_of_kind(k) for k in KINDS] + [{"pandas_type": pt, "numpy_type": nt} for pt, nt in (
+        ("int16", "int16"), ("uint16", "uint16"), ("uint32", "uint32"), ("float16", "float16"), ("datetime", "datetime64[ms]"),
+        ("datetime", "datetime64[s]"), ("unicode", "object"), ("string", "str"), ("bytes", "object"), ("mixed", "object"))]
+    for m in metas:
+        mo = pq.call("kind_of_pmeta", L.pmeta_sx(m))
+        ctx.correspondence("kind_of_pmeta (Impl/PartMeta.v) ~ harness glue kind_of_meta", {"meta": m}, L.kind_sx_norm(mo), L.kind_of_meta(m))
     # int() itself on every decimal digit of every script, alone and mixed, and on every white space (model vs the interpreter)
     probe = [chr(z + k) for z in zeros for k in (0, 3, 9)] + [chr(z + 1) + chr(zeros[(i + 1) % len(zeros)] + 2) for i, z in enumerate(zeros)] + \
             [chr(c) + "5" + chr(c) for c in spaces] + [chr(z - 1) for z in zeros] + [chr(z + 10) for z in zeros]
@@ -338,8 +346,25 @@ def _run(ctx, pq):
         case = {"corr": "paths_to_cats", "paths": paths, "dirs_order": impl_dirs, "pm": {k: v["numpy_type"] + "/" + v["pandas_type"] for k, v in pm.items()}}
         ctx.case(case)
         ctx.correspondence("paths_to_cats ~ api.paths_to_cats", case, model, impl)
+        # C08_drill_mixed_level_is_text on the real code: a drill level holding any text no guess converts is labelled by exactly its
+        # directory texts (as text), whatever else it holds and in whatever order the directories are met
+        if impl[0] == "ok" and impl[1][0] == "drill":
+            levels = {}
+            for d in impl_dirs:
+                if not d:           # a file at the root has no directory (paths_to_cats skips it)
+                    continue
+                for j, t in enumerate(d.split("/")):
+                    levels.setdefault("dir%d" % j, set()).add(t)
+            got = {k: set(vs) for k, vs in impl[1][1]}
+            for k, texts in levels.items():
+                if any(isinstance(util._val_to_num(t), str) for t in texts):
+                    ctx.count("D.mixed_level", "text with guessable" if any(not isinstance(util._val_to_num(t), str) for t in texts) else "text only")
+                    want_l = {json.dumps(["s", t]) for t in texts}
+                    if got.get(k) != want_l:
+                        ctx.fail({"component": "_path_to_cats", "scheme": "drill", "stage": "mixed-level-labels"}, case,
+                                 "drill level %s holds text: labels %r, its directory texts %r" % (k, sorted(got.get(k, [])), sorted(want_l)))
 
-    if getattr(ctx, "gen_paths", False):       # the regenerated text itself, evaluated by the kernel, against the real function
+    if "strip" in (getattr(ctx, "gen_paths", None) or ()):       # the regenerated text itself, evaluated by the kernel, against the real function
         ok_paths = sorted({p for p in d_paths if L.coq_ascii_ok(p)})
         L.gen_paths_samples(ctx, [], rng.sample(ok_paths, min(40, len(ok_paths))) + ["", "part.0.parquet", "/x", "a/"])
     # ---------------------------------------------------------------- E: whole datasets
@@ -365,6 +390,30 @@ def _run(ctx, pq):
             ctx.count("F.op", o)
         for kd in case["dist"]["kinds"]:
             ctx.count("F.partition_kind", kd)
+    # ---------------------------------------------------------------- F2: the generic handle-program runner (harness/handleprog.py, w3-reads)
+    # on PARTITIONED hive datasets: derivations (slices, picks, pickle, copy, deepcopy) and failed appends that stream F does not have,
+    # appended rows bringing partition values that sort between the existing ones; every observer answer of a live handle (rows, partition
+    # cells, categories, dtypes) against a fresh handle of the same state.  Stream F stays: it has the partition kinds (text, float, time,
+    # categorical, bool), the drill layout, row labels and the comparison with the rows written / read_model that the generic runner lacks.
+    from harness import handleprog as HP
+    hp_jobs = []
+    for _ in range(6 if quick else 40):
+        ds = HP.gen_dataset(rng, {"scheme": "hive", "part": True})
+        hp_jobs.append({"ds": ds, "progs": [HP.gen_program(rng, ds) for _ in range(3 if quick else 6)], "inventory": None, "aimed": False})
+    for job, r in zip(hp_jobs, C.pmap(HP.run_job, hp_jobs, init=HP._winit, nproc=6, job_timeout=300)):
+        if isinstance(r, dict) and "__crashed__" in r:
+            ctx.fail({"stream": "handleprog", "stage": "crash"}, {"handle_program": {"ds": job["ds"], "prog": job["progs"][0]}},
+                     "running handle programs on this dataset: " + r["__crashed__"])
+            continue
+        for pr in r["results"]:
+            if pr["error"]:
+                raise RuntimeError("handle program harness error: %s" % pr["error"])
+            case = {"handle_program": {"ds": r["ds"], "prog": pr["prog"]}}
+            ctx.case(case, trivial=False)
+            ctx.count("F2.steps", len(pr["prog"]))
+            if pr["result"]["problems"]:
+                ctx.fail(dict(HP.classify(r["ds"], pr["prog"], pr["result"]["problems"]), stream="handleprog"), case,
+                         "; ".join("step %d (%s): %s" % (k, w, t) for w, k, t in pr["result"]["problems"][:3]))
     # ---------------------------------------------------------------- extraction vs kernel on a sample of the commands above
     fixed = [("write_model", True, [b"k", b"n"],
               [[[[[[2, b"a"]], [[0, 5]]], 0], [[[[2, b"b"]], []], 1]], [[[[[2, b"a"]], [[0, -7]]], 2], [[[[2, b"a"]], [[0, 5]]], 3]]]),
@@ -837,6 +886,15 @@ def check_dataset(case, root, pq, ctx=None, verbose=False):
         if ctx is not None:
             paths = [rg.columns[0].file_path for rg in pf.row_groups]
             pm = [[L.enc(k), L.kind_of_meta(v)] for k, v in pf.partition_meta.items()]
+            for k, v in pf.partition_meta.items():
+                ctx.correspondence("kind_of_pmeta (Impl/PartMeta.v) ~ harness glue kind_of_meta",
+                                   {"meta": {kk: vv for kk, vv in v.items() if kk in ("pandas_type", "numpy_type", "metadata")}},
+                                   L.kind_sx_norm(pq.call("kind_of_pmeta", L.pmeta_sx(v))), L.kind_of_meta(v))
+                # the hypothesis pm_wf of gen_val_from_meta_is_model on the blocks the writer really produced
+                lab = (v.get("metadata") or {}).get("labels") if v.get("pandas_type") == "categorical" else None
+                simple = lambda b: b.get("pandas_type") != "categorical" and not (b.get("pandas_type") == "datetimetz" and b.get("numpy_type") == "datetime64[ns]")
+                wf = (v.get("numpy_type") != "datetime64[ns]" and (lab is None or simple(lab))) if v.get("pandas_type") == "categorical" else simple(v)
+                ctx.correspondence("pm_wf (hypothesis of gen_val_from_meta_is_model) holds of the partition_columns blocks written", {"meta": str(v)[:300]}, True, bool(wf))
             dirs = list(api._strip_path_tail(paths)) if paths else []
             table = L.oracle_table([t for p in paths for seg in p.split("/") for t in seg.split("=")])
             mfiles = [[L.enc(p), file_ids.get(p, [])] for p in paths]
@@ -1197,10 +1255,13 @@ def replay(rep):
         first = (rep.get("no_longer_checks") or [{}])[0]
         print(json.dumps(rep, indent=1, default=repr)[:5000])
         case = first.get("detail", {}).get("case") if isinstance(first.get("detail"), dict) else None
-        if not (isinstance(case, dict) and ("frame" in case or "prog" in case)):
+        if not (isinstance(case, dict) and ("frame" in case or "prog" in case or "handle_program" in case)):
             return 1
     else:
         case = rep["case"]
+    if "handle_program" in case:
+        from harness import handleprog as HP
+        return HP.replay_case(case["handle_program"])
     if "prog" in case:
         return _replay_handle(case)
     if "frame" not in case:
